@@ -179,8 +179,8 @@ class RefMem:
             raise Skip()
         if o.endswith('init') and not self.disposable(idx[0]):
             raise Skip()
-        if o == 'uswap' and idx[0] == idx[1]:
-            raise Skip()
+        if o == 'uswap' and idx[0] == idx[1] and not self.stray[idx[0]]:
+            raise Skip()            # (on a stray copy the guarded read aborts before anything is copied)
         if o == 'aset':
             e = int(w[2])
             if not (0 <= e < len(self.exts)) or int(w[3]) * int(w[4]) > self.exts[e]:
